@@ -73,6 +73,9 @@ VARIANTS = [
       lambda nd: isinstance(nd, ast.Compare) and ast.unparse(nd) == "ec == 0",
       lambda nd: expr("ec != 0"), nth=1,
       note="posterior loop keeps only code 0", expect_rule="C19.R2"),
+    V("c19_none_guard_negated", "M", E, "SamplingResults.get_error_log",
+      *replace_expr("opt.is_none()", "not opt.is_none()"),
+      note="posterior log dropped exactly when it exists", expect_rule="C19.R2"),
     # ---- twins
     V("c19_t_book_order", "T", N, "NUTSKernel",
       lambda nd: isinstance(nd, ast.AnnAssign) and ast.unparse(nd.target) == "error_book",
